@@ -344,7 +344,13 @@ func genVal(r *Rng, v reflect.Value, p ValueProfile, depth int) {
 			case 3:
 				v.SetInt(-1)
 			default:
-				v.SetInt([]int64{127, 128, 16383, 16384, 65535, 65536}[r.Intn(6)])
+				// varint boundaries, and "PAR1" read as a little-endian number (after a 0 it imitates an empty trailer)
+				c := []int64{127, 128, 16383, 16384, 65535, 65536, 0x31524150, 0x3152415000000000}
+				x := c[r.Intn(len(c))]
+				if bits < 64 && x > 1<<(bits-1)-1 {
+					x = 0x31524150
+				}
+				v.SetInt(x)
 			}
 		}
 	case reflect.Uint, reflect.Uint8, reflect.Uint16, reflect.Uint32, reflect.Uint64:
@@ -380,7 +386,7 @@ func genVal(r *Rng, v reflect.Value, p ValueProfile, depth int) {
 		}
 	case reflect.String:
 		if p.EdgePct > 0 && r.Intn(100) < p.EdgePct {
-			v.SetString([]string{"", "PAR1", "__#NIL#__", "\xff\xfe\x00", "\x00", "PAR1\x15\x00PAR1"}[r.Intn(6)])
+			v.SetString([]string{"", "PAR1", "__#NIL#__", "\xff\xfe\x00", "\x00", "PAR1\x15\x00PAR1", "\x00\x00\x00\x00PAR1", "\x00\x01\x00\x00\x00PAR1"}[r.Intn(8)])
 			return
 		}
 		n := r.Range(0, p.MaxStr)
